@@ -128,6 +128,12 @@ Theorem C31_writefile_refuted : not_atomic writefile_ops.
 Proof. exact writefile_not_atomic. Qed.
 Print Assumptions C31_writefile_refuted.
 
+(* Updating the session file in place -- even when the new session has exactly the size of
+   the old one, even with an fsync -- is not atomic: a crash inside the write leaves a mix. *)
+Theorem C31_inplace_overwrite_refuted : not_atomic (fun chunks => inplace_ops (concat chunks)).
+Proof. exact inplace_not_atomic. Qed.
+Print Assumptions C31_inplace_overwrite_refuted.
+
 (* The fsync before the rename is necessary under power loss (and only there). *)
 Theorem C31_fsync_needed : not_atomic store_ops_nofsync.
 Proof. exact nofsync_not_atomic. Qed.
